@@ -7,7 +7,14 @@ import Pep508.Proofs.DnfCollect
 namespace Pep508.C05
 open Pep508
 
-/-- **the clauses returned by `to_dnf()` denote the same function as the marker**: for every
+/-! NOTE (audit): the hypothesis `hs : ∀ v, stripZeros (spell v) = v` of `to_dnf_sound`, `collect_exact` and
+`common_term_holds` below is UNSATISFIABLE (`stripZeros` never returns `[0]`;
+`C05.old_spelling_hypothesis_unsatisfiable`), so these three statements are vacuous.  They are kept only for the
+record and are NOT registered as obligations any more; the repaired statements (`SpellOK spell` + the invariant
+`NormBounds t`, both proved satisfiable and closed under the API) are `to_dnf_sound_norm`, `collect_exact_norm`,
+`common_term_holds_norm`, `to_dnf_sound_built` in `Theorems/C05b.lean`. -/
+
+/-- (VACUOUS as stated, see the note above) **the clauses returned by `to_dnf()` denote the same function as the marker**: for every
     well-formed, well-typed diagram other than TRUE, every environment, and every spelling of
     the versions in it (`spell` is what the process happens to print: K1) -/
 theorem to_dnf_sound (spell : Spell) (hs : ∀ v, stripZeros (spell v) = v) (t : MTree)
